@@ -3,6 +3,7 @@
 Every transport operation of the OS doubles calls yield_point(tag); exactly one registered
 thread runs at a time, the controller (main thread) decides which parked thread proceeds.
 A schedule is the list of choices made; replaying the list reproduces the trace."""
+import _thread
 import threading
 
 
@@ -13,14 +14,19 @@ class Sched(object):
         self.running = None
         self.done = set()
         self.threads = {}
+        self.idents = {}             # thread ident -> name (threads are recognised without threading.current_thread(), which would
+        #                              register a thread started behind the threading module's back as a _DummyThread)
         self.trace = []
         self.chooser = chooser
         self.lock_epoch = 0
         self.choices = []            # (picked index, number of candidates)
         self.errors = {}
 
-    def spawn(self, name, fn):
+    def spawn(self, name, fn, foreign=False):
+        """foreign: the thread is started with _thread.start_new_thread - the way a C extension's callback thread or an embedding
+        application's thread looks to Python: it runs Python code but the threading module does not count it"""
         def body():
+            self.idents[_thread.get_ident()] = name
             self._park(name, ('start', None))
             try:
                 fn()
@@ -31,9 +37,16 @@ class Sched(object):
                     self.done.add(name)
                     self.running = None
                     self.cv.notify_all()
+        if foreign:
+            self.threads[name] = None
+            _thread.start_new_thread(body, ())
+            return
         t = threading.Thread(target=body, name=name, daemon=True)
         self.threads[name] = t
         t.start()
+
+    def name_of_current(self):
+        return self.idents.get(_thread.get_ident())
 
     def _park(self, name, tag):
         with self.cv:
@@ -46,7 +59,7 @@ class Sched(object):
             del self.parked[name]
 
     def yield_point(self, tag):
-        name = threading.current_thread().name
+        name = self.idents.get(_thread.get_ident())
         if name in self.threads:
             self.trace.append((name, tag))
             self._park(name, tag)
